@@ -33,6 +33,12 @@ def model_components(ctx, shape):
                   {"tags": [], "content": P(ctx, "fx-z-b", 35, 3), "declared": 35, "enc": False}],
         "config": [{"tags": [(0xC3, b"\x02")], "content": P(ctx, "fx-c-a", 30, 0), "declared": 30, "enc": False},
                    {"tags": CFG_TAGS, "content": P(ctx, "fx-c-b", 27, 1), "declared": 27, "enc": True}],
+        # the same image twice (one firmware for two hardware variants) and once more encrypted: whatever is remembered about one
+        # copy must not vouch for another
+        "twins": [{"tags": [(0xC1, b"\x00"), (0xC4, b"\x11")], "content": P(ctx, "fx-twin", 23, 0), "declared": 23, "enc": False},
+                  {"tags": [(0xC1, b"\x00"), (0xC4, b"\x12")], "content": P(ctx, "fx-twin", 23, 0), "declared": 23, "enc": False},
+                  {"tags": CFG_TAGS, "content": P(ctx, "fx-twin-c", 20, 1), "declared": 20, "enc": True},
+                  {"tags": CFG_TAGS, "content": P(ctx, "fx-twin-c", 20, 1), "declared": 20, "enc": True}],
         # components longer than any plausible internal chunk size (1 KiB, 4 KiB, 8 KiB)
         "big": [{"tags": [(0xC1, b"\x00")], "content": P(ctx, "fx-big-a", 9001, 0), "declared": 9001, "enc": False},
                 {"tags": CFG_TAGS, "content": P(ctx, "fx-big-b", 4500, 1), "declared": 4500, "enc": True},
